@@ -269,6 +269,11 @@ def R3_predicates(ctx):
         if truth is True:
             n_err += 1
             ok = result_variant(r.ret) == "Err"
+            if not ok and is_err_value(r.ret) and calls_in(r.ret, TM + "::explain_termination"):
+                # `explain_termination(..).ok_or_else(|| RuntimeError(..))?`: the missing explanation leaves as the error of the `?`
+                ctx.check(True, "test:true=>Err", "", tb.where())
+                ctx.check(True, "test:explanation", "", tb.where(), detail="no explanation => error (ok_or_else .. ?)")
+                continue
             ctx.check(ok, "test:true=>Err", "terminate_search == true does not yield Err: %s" % short(r.ret), tb.where())
             if ok:
                 pay = agg_payload(r.ret)
